@@ -57,7 +57,7 @@ def build_inputs(case: Dict[str, Any]):
     best = None
     for attempt in range(8):
         frs, ops, names, ofeats = generate_document(
-            schema_ref, s * 31 + attempt, dirty, n_ops=case.get("n_ops", 3), max_depth=case.get("max_depth", 3),
+            schema_ref, s * 31 + attempt, dirty, n_ops=case.get("n_ops", 3), max_depth=max(1, case.get("max_depth", 3) - attempt // 3),
             allow_subscription=cfg.get("async_client", True) or case.get("allow_sync_subscription", False),
             mixins=case.get("mixins"))
         text = "\n\n".join(frs + ops)
@@ -184,6 +184,13 @@ def documented_refusal(case, gen, ops_text: List[str], cfg) -> Optional[str]:
     return None
 
 
+def has_inline_fragment_on_interface(case, queries: str) -> bool:
+    import re
+    sdl = case.get("_sdl") or ""
+    ifaces = set(re.findall(r"^interface (\w+)", sdl, re.M))
+    return any(m in ifaces for m in re.findall(r"\.\.\.\s*on\s+(\w+)", queries))
+
+
 def relabel_string_literal_findings(case, queries: str, violations: List[Violation]) -> None:
     """Listed findings about GraphQL string literals are keyed by the literal class the document really contains."""
     import re
@@ -191,6 +198,15 @@ def relabel_string_literal_findings(case, queries: str, violations: List[Violati
     has_single = bool(re.search(r'"[^"\n]*\'[^"\n]*"', queries))
     has_block = '"""' in queries
     has_escape = bool(re.search(r'"[^"\n]*\\[nt][^"\n]*"', queries))
+    if "frag.inline.on_interface" in dirty and has_inline_fragment_on_interface(case, queries):
+        # D18: inline fragment on an interface inside an abstract selection
+        for v in violations:
+            if v.prop == "C01" and v.clause in ("key-exposed", "round-trip", "accepted"):
+                v.mech = "inline-fragment-on-interface-drops-fields"
+            elif v.prop == "C04" and v.clause == "generation-typed-refusal-on-valid-input" and "ParsingError" in v.mech and "not found in type" in v.detail:
+                v.mech = "inline-fragment-on-interface-parsing-error"
+            elif v.prop == "C05" and (v.clause.startswith("rejects-k") or v.clause in ("rejects-null-at-nonnull", "annotation-image")):
+                v.mech = "inline-fragment-on-interface-lax"
     for v in violations:
         if v.prop == "C04" and v.clause == "generation-internal-error" and "InvalidInput" in v.mech and (
                 ("strlit.single_quote" in dirty and has_single) or ("strlit.block" in dirty and has_block)):
@@ -250,7 +266,7 @@ def worker(case: Dict[str, Any]) -> CaseResult:
                 violations.append(Violation("C04", "generation-" + kind, "valid input, generation failed with %s: %s\n%s" % (
                     gen.exc_type or ("exit code %d" % gen.exit_code), str(gen.exception)[:300], gen.traceback[-1200:] if not gen.exc_is_codegen else (gen.stdout[-300:])),
                     feats, replay_case, mech="c04:generation-%s:%s" % (kind, gen.exc_type)))
-                relabel_string_literal_findings(case, queries, violations)
+                relabel_string_literal_findings(dict(case, _sdl=sdl), queries, violations)
                 return CaseResult("violated", [v.to_json() for v in violations], stats, {"features": feats})
             return CaseResult("inconclusive", note="generation failed (%s) - C04's concern" % gen.exc_type, stats={"generation_failed": 1})
         count("generated")
@@ -385,7 +401,7 @@ def worker(case: Dict[str, Any]) -> CaseResult:
                                    authored_doc=authored, opnode=opnode)
             if tracer is not None and tracer.open_spans():
                 violations.append(Violation("C01", "spans-closed", repr(tracer.open_spans())[:200], feats, replay_case, mech="c01:spans-closed"))
-    relabel_string_literal_findings(case, queries, violations)
+    relabel_string_literal_findings(dict(case, _sdl=sdl), queries, violations)
     status = "violated" if violations else "held"
     sample = None
     if case["idx"] < 2:
